@@ -98,6 +98,9 @@ func (engine) Run(prop string, seed uint64, tier string, replay *core.Schedule) 
 	} else {
 		cfg = SwarmConfig(r.Sub("cfg"))
 		tuneForProperty(cfg, prop, r.Sub("tune"))
+		if tier != "thorough" {
+			cfg.StartHeight = 0 // tens of thousands of blocks: minutes per run, thorough tier only
+		}
 	}
 	s := &Sim{prop: prop, tier: tier, cfg: cfg, res: res, txs: map[int]*TxRecord{}, byHash: map[string]*TxRecord{}, book: map[int64]*Dump{},
 		results: map[int64]*BlockResult{}, effective: map[string]bool{}, served: map[string]int{}, sessions: map[string]string{}, claims: map[string]*claimInst{}, forged: map[string]string{}, dupEvidence: map[string]bool{}, relayEntropy: 5000, replay: replay != nil, nextID: 1, entropy: 1000, life: newLifecycle()}
@@ -110,6 +113,9 @@ func (engine) Run(prop string, seed uint64, tier string, replay *core.Schedule) 
 			s.warmupParams()
 		}
 		s.execBlock(&Step{Op: "block", DtS: 900})
+	}
+	if cfg.StartHeight > s.drv.Height && !s.aborted {
+		s.fastForward(cfg.StartHeight)
 	}
 	sched := &core.Schedule{Engine: "chainsim", Property: prop, Seed: seed, Tier: tier, Config: core.Enc(cfg)}
 	if replay == nil && tier == "thorough" && seed%2 == 0 {
@@ -382,6 +388,34 @@ func (s *Sim) execBlock(st *Step) {
 	}
 	bo.finish(res)
 	s.restartedSinceBlock = false // (until its first Commit a restarted node has no check-state header)
+}
+
+// fastForward runs empty blocks, every validator signing, up to height to without observing them
+// (no dumps, no oracles), then takes the dump the next observed block starts from.
+func (s *Sim) fastForward(to int64) {
+	d := s.drv
+	for d.Height < to-1 {
+		h := d.Height + 1
+		t := d.Time.Add(15 * time.Second)
+		s.simSeconds += 15
+		var votes []abci.VoteInfo
+		for _, v := range d.SignersOf(h).Sorted() {
+			votes = append(votes, abci.VoteInfo{Validator: abci.Validator{Address: v.Addr, Power: v.Power}, SignedLastBlock: true})
+		}
+		var proposer []byte
+		if props := d.ProposerSet(h).Sorted(); len(props) > 0 {
+			proposer = props[int(h)%len(props)].Addr
+		}
+		spec := d.MakeBlock(t, proposer, votes, nil, nil)
+		res := ExecBlock(s.node, spec, nil)
+		d.Advance(spec, res)
+		s.results[h] = res
+	}
+	s.committed = TakeDump(s.node, d.Height)
+	s.book[d.Height] = s.committed
+	s.committedView = s.committed.View()
+	s.res.ProbeN("blocks_fast_forwarded", int(d.Height))
+	s.execBlock(&Step{Op: "block", DtS: 15})
 }
 
 // crashDuringCommit (C07 at application level): the block was executed and committed normally, so
